@@ -56,7 +56,6 @@ def piecesOf : Bytes → List Nat → List Bytes
   | [], _ => []
   | a :: av, [] => [a :: av]
   | a :: av, k :: ks => (a :: av).take (max 1 k) :: piecesOf ((a :: av).drop (max 1 k)) ks
-termination_by av cuts => cuts.length
 
 /-! ### read loops over a list of cleaned pieces (the mathematical core) -/
 
@@ -90,7 +89,7 @@ def roughlyContains (inp out : Bytes) : Bool :=
 /-- the stop test of `_read_until_input` for one buffer value -/
 def inputSeen (rough : Bool) (input buf : Bytes) : Bool :=
   if !rough then isInfixB (squish input) (squishBuf buf)
-  else roughlyContains (squish input) buf
+  else roughlyContains (squish input) (buf.map lowerByte)      -- `output=buf.lower()` (fix f3f6abb)
 
 /-- the stop test of `_read_until_prompt` -/
 def promptSeen (p : Pat) (d : Nat) (buf : Bytes) : Bool := p.search (processReadBuf d buf)
